@@ -3,13 +3,13 @@
    The model Cli/FileSel.v has files and directories only.  This file adds link entries and reduces both the code and
    the specification to that model by erasing the links in the two ways that matter:
 
-     code_view    what service/file_reader.go sees: filepath.Walk (99-148) reports a link with Lstat information, i.e. as
-                  an entry that is not a directory, whatever it points to, and never descends into it; nothing in the
-                  file reader reads [analysis] follow_symlinks.  Afterwards `pyscn analyze` hands the collected paths to
-                  every analysis, whose app.ResolveFilePaths (file_resolution_helper.go:36-61) stats each of them: a
-                  path that does not exist (a dangling link) sends the whole list back through CollectPythonFiles, which
-                  fails on it (file_reader.go:28-31) — the analysis fails for every file.  A link to a directory that
-                  carries a Python file name is collected and then cannot be read: it is reported as an error of its own.
+     code_view    what service/file_reader.go sees: filepath.Walk (collectFromDirectory) reports a link with Lstat
+                  information, i.e. as an entry that is not a directory, whatever it points to, and never descends into
+                  it; nothing in the file reader reads [analysis] follow_symlinks.  A link whose target cannot be
+                  stat'ed (a dangling one) is skipped by the walk like any other entry that cannot be read; as a target
+                  named on the command line it is an error (CollectPythonFiles: os.Stat fails), as it does not exist in
+                  the tree the code sees.  A link to a directory that carries a Python file name is collected and then
+                  cannot be read: it is reported as an error of its own and contributes nothing.
      spec_view    what the property says: with follow_symlinks = false (the documented default) links are not part of
                   the tree; with follow_symlinks = true a link stands for what it points to (a dangling one for nothing).
 
@@ -29,12 +29,16 @@ Inductive lnode :=
 
 Definition lnode_name (nd : lnode) : name := match nd with LFile n => n | LDir n _ => n | LLink n _ _ => n end.
 
-Fixpoint code_view (t : lnode) : node :=
+Fixpoint code_view (t : lnode) : list node :=
   match t with
-  | LFile n => File n
-  | LDir n cs => Dir n (map code_view cs)
-  | LLink n _ _ => File n
+  | LFile n => [File n]
+  | LDir n cs => [Dir n (flat_map code_view cs)]
+  | LLink n KDangling _ => []            (* os.Stat(path) fails in walkFunc: skipped *)
+  | LLink n _ _ => [File n]
   end.
+
+Definition code_world (w : lnode) : node :=
+  match code_view w with x :: _ => x | [] => Dir [] [] end.
 
 Fixpoint spec_view (follow : bool) (t : lnode) : list node :=
   match t with
@@ -60,6 +64,15 @@ Fixpoint no_links (t : lnode) : bool :=
   | LLink _ _ _ => false
   end.
 
+(* every link of the tree is a dangling one *)
+Fixpoint only_dangling_links (t : lnode) : bool :=
+  match t with
+  | LFile _ => true
+  | LDir _ cs => forallb only_dangling_links cs
+  | LLink _ KDangling _ => true
+  | LLink _ _ _ => false
+  end.
+
 (* what is at an absolute location of the tree as the code sees it (links are leaves) *)
 Fixpoint lfind_child (n : name) (cs : list lnode) : option lnode :=
   match cs with
@@ -77,21 +90,14 @@ Fixpoint llookup (nd : lnode) (loc : list name) : option lnode :=
       end
   end.
 
-Definition dangling_at (w : lnode) (loc : list name) : bool :=
-  match llookup w loc with Some (LLink _ KDangling _) => true | _ => false end.
-
 Definition readable_at (w : lnode) (loc : list name) : bool :=
   match llookup w loc with Some (LFile _) => true | Some (LLink _ KFile _) => true | _ => false end.
 
-(* `pyscn analyze`: the locations whose functions appear in the report; None = the analyses fail *)
+(* `pyscn analyze`: the locations whose functions appear in the report; None = the targets cannot be collected *)
 Definition analyzed_code (w : lnode) (cwd : list name) (ts : list spath) (recursive : bool) (inc exc : list str)
   : option (list (list name)) :=
-  match collect_python_files (code_view w) cwd ts recursive inc exc with
-  | None => None
-  | Some ps =>
-      let locs := map (fun p => segs (abs cwd p)) ps in
-      if existsb (dangling_at w) locs then None else Some (filter (readable_at w) locs)
-  end.
+  option_map (fun ps => filter (readable_at w) (map (fun p => segs (abs cwd p)) ps))
+             (collect_python_files (code_world w) cwd ts recursive inc exc).
 
 Definition analyzed_spec (follow : bool) (w : lnode) (cwd : list name) (ts : list spath) (recursive : bool) (inc exc : list str)
   : list (list name) :=
